@@ -168,4 +168,6 @@ pub fn run(ctx: &mut Ctx) {
     ctx.search("names", n, name_strategy, check);
     ctx.floor("names:exact_fill", 500);
     ctx.floor("names:contains_nul", 500);
+    // instruction path (svm-lite world W1)
+    crate::props::c18i::run_c35_instr(ctx);
 }
